@@ -121,6 +121,10 @@ func H_C15_keys(t *verifrt.T) {
 		mapPath = false
 	}
 	t.ObserveBool("ok", err == nil)
+	// whatever the key bytes are: a document that is accepted is a valid one
+	if t.ParamOr("UNITS", 0) == 0 {
+		t.Assert("accepted-only-valid-document", verifrt.Implies(err == nil, verifref.ValidJSON(doc, verifref.Relax{})))
+	}
 	// only keys that are one well-formed literal spanning the whole body are in scope
 	// (a quote inside the body changes the document shape: covered by C05)
 	inScope := verifrt.And(tok.OK, tok.End == len(lit), !tok.BadUTF8)
@@ -308,8 +312,8 @@ type vskT struct {
 
 // {"x":<N free bytes>,"a":1} into a struct without member x (the value is
 // skipped, not decoded) and [<N free bytes>,7] surplus into [0]... : a valid
-// document is never rejected; an accepted invalid one belongs to the recorded
-// class D20 (skipped parts are only bracket/quote-balanced).
+// document is never rejected and an invalid one never accepted (finding D20,
+// skipped parts only bracket/quote-balanced, is repaired).
 func H_C05_skipped_member(t *verifrt.T) {
 	n := t.Param("N")
 	var val []byte
@@ -342,7 +346,8 @@ func H_C05_skipped_member(t *verifrt.T) {
 	accepted := err == nil
 	strict := verifref.ValidJSON(doc, verifref.Relax{})
 	t.ObserveBool("accepted", accepted)
-	t.Known("D20-skipped-member-not-validated", verifrt.And(accepted, !strict))
+	// a number outside the float64 range is not an error in a skipped value (encoding/json scans it)
+	t.Assert("accepted-only-when-valid", verifrt.Implies(accepted, strict))
 	t.Assert("valid-document-accepted", verifrt.Implies(strict, accepted))
 	t.Assert("known-member-decoded", verifrt.Implies(verifrt.And(strict, accepted), v.A == 1))
 	t.Cover("accepted-valid", verifrt.And(accepted, strict))
